@@ -302,8 +302,10 @@ class PathWalker:
         if isinstance(st, ast.AugAssign):
             e2 = dict(env)
             if isinstance(st.target, ast.Name):
-                e2[st.target.id] = UNKNOWN
-            yield from cont(conds, e2, calls)
+                cur = env.get(st.target.id, ast.Name(id=st.target.id, ctx=ast.Load()))
+                new_v = ast.BinOp(left=clone(cur), op=st.op, right=subst(st.value, env))
+                e2[st.target.id] = new_v if _size(new_v) < 400 and not is_unknown(cur) else UNKNOWN
+            yield from cont(conds, e2, calls + [subst(c, env) for c in calls_in(st.value)])  # type: ignore[misc]
             return
         if isinstance(st, ast.Expr):
             v = strip_cast(st.value)
